@@ -252,11 +252,14 @@ def install(ex):
                 d = int(c.name.split("<d=")[1][0])
             if d is not None and attr in PROPS[d]:
                 from pyvc.contract import Ctx
+                if attr == "dim" and str(ref.e) == "self":
+                    return sv.SInt(z3.IntVal(d))     # the unit is instantiated for this dimension (requires: $dim == d)
                 return PROPS[d][attr](Ctx(ex, path, {"self": ref}))
         return None
 
     ex.hooks.setdefault("getattr_ref", []).append(sg_props)
     install_eq(ex)
+    install_axes(ex)
 
 
 # =================================================================================================
@@ -331,6 +334,7 @@ def register(reg):  # noqa: F811
     register_eq_transform(reg)
     register_canonical_callers(reg)
     register_nogrid(reg)
+    register_axes(reg)
 
 
 _BG = {"name": "grid-layouts", "script": "replay/drivers/bnd_grids.py", "args": ["--json"], "timeout": 3000}
@@ -524,3 +528,126 @@ def register_nogrid(reg):
                          result=Bool, pure=True, modifies=lambda ctx: [],
                          ensures=lambda ctx, r, spec=spec: {"equal <=> other is a NoGrid of the same data shape": r.e == spec(ctx)},
                          name=f"NoGrid.__eq__<{kn}>", primary=False))
+
+
+# =================================================================================================
+# StructuredGrid.cell_axes / data_axes / data_shape (C14.1): the per-axis coordinates of a data index
+# =================================================================================================
+def install_axes(ex):
+    import ast as _ast
+
+    def const_int(ex, node, path):
+        if node is None:
+            return None
+        v = sv.simp(ex.eval(node, path).e)
+        return v.as_long() if z3.is_int_value(v) else "sym"
+
+    def arr_slice(ex, base, sl, path, node):
+        if isinstance(base, SArr) and base.rank == 1:
+            lo, hi, st = const_int(ex, sl.lower, path), const_int(ex, sl.upper, path), const_int(ex, sl.step, path)
+            n = base.shape[0]
+            if st == -1 and lo is None and hi is None:
+                return arr.flip(base, 0)
+            if st is None and "sym" not in (lo, hi):
+                # a[lo:hi] with constant bounds (negative: from the end); numpy clips, the lengths used here are exact
+                l = z3.IntVal(0) if lo is None else (z3.IntVal(lo) if lo >= 0 else n + lo)
+                h = n if hi is None else (z3.IntVal(hi) if hi >= 0 else n + hi)
+                l = If(l < 0, z3.IntVal(0), If(l > n, n, l))
+                h = If(h < l, l, If(h > n, n, h))
+                return arr.slice1(base, sv.simp(l), sv.simp(h))
+            raise Unsupported("array slice with symbolic bounds / step", node)
+        if isinstance(base, sv.SPy) and base.what == "seq" and sl.lower is None and sl.upper is None and const_int(ex, sl.step, path) == -1:
+            seq = base.payload
+            from pyvc.expr import Seq
+            return sv.SPy("seq", Seq(seq.n, lambda i, seq=seq: seq.at(sv.simp(seq.n - 1 - i))))
+        return None
+
+    ex.hooks.setdefault("slice", []).append(arr_slice)
+
+    def arr_binop(ex, op, a, b, path, node):
+        num = (sv.SInt, sv.SReal)
+        if isinstance(a, SArr) and isinstance(b, SArr) and a.rank == b.rank and a.dtype in ("real", "int") and b.dtype in ("real", "int"):
+            ex.safe(path, "broadcast", And(*[x == y for x, y in zip(a.shape, b.shape)]), node)
+            if isinstance(op, _ast.Add):
+                return arr.map2(a, b, lambda x, y: sv.to_real(x) + sv.to_real(y), "real")
+            if isinstance(op, _ast.Sub):
+                return arr.map2(a, b, lambda x, y: sv.to_real(x) - sv.to_real(y), "real")
+        if isinstance(a, SArr) and isinstance(b, num) and a.dtype in ("real", "int"):
+            c = sv.simp(b.e)
+            if isinstance(op, _ast.Div) and (z3.is_int_value(c) or z3.is_rational_value(c)) and not sv.is_true(sv.simp(b.e == 0)):
+                return arr.map1(a, lambda x, b=b: sv.to_real(x) / sv.to_real(b.e), "real")
+            if isinstance(op, _ast.Mult):
+                return arr.map1(a, lambda x, b=b: sv.to_real(x) * sv.to_real(b.e), "real")
+            if isinstance(op, _ast.Add):
+                return arr.map1(a, lambda x, b=b: sv.to_real(x) + sv.to_real(b.e), "real")
+        return None
+
+    ex.hooks.setdefault("binop", []).append(arr_binop)
+
+    def builtin(ex, name, args, kwargs, path, node):
+        if name == "len" and args and isinstance(args[0], SArr) and args[0].rank >= 1:
+            return sv.SInt(args[0].shape[0])
+        return None
+
+    ex.hooks.setdefault("builtin", []).append(builtin)
+
+
+CA = z3.Function("cell_axis_value", sv.IntS, sv.IntS, sv.IntS, sv.RealS)
+
+
+def register_axes(reg):
+    LOC = lambda ctx, g: ctx.get(g, "_data_location").e       # 0 = CELLS, 1 = POINTS
+
+    for d in DIMS:
+        tag = f"<d={d}>"
+
+        def wf(ctx, d=d):
+            g = ctx.self
+            return And(gdim(ctx, g) == d, *[NPTS(g.e, z3.IntVal(k)) >= 1 for k in range(d)])
+
+        def cell_axis_ok(r_k, g, k):
+            """r_k is the cell axis of axis k: midpoints of neighbouring points; a single point stands for itself"""
+            n = NPTS(g.e, z3.IntVal(k))
+            i = z3.Int("cai")
+            mid = (AX(g.e, z3.IntVal(k), i) + AX(g.e, z3.IntVal(k), i + 1)) / 2
+            return And(z3.BoolVal(isinstance(r_k, SArr) and r_k.rank == 1),
+                       r_k.shape[0] == If(n > 1, n - 1, n),
+                       z3.ForAll([i], Implies(And(0 <= i, i < r_k.shape[0]), r_k.at((i,)) == If(n > 1, mid, AX(g.e, z3.IntVal(k), i)))))
+
+        def ca_post(ctx, r, d=d):
+            items = getattr(r, "items", None)
+            if items is None or len(items) != d:
+                return {"one cell axis per axis": z3.BoolVal(False)}
+            return {f"axis {k}: cell centres are the means of neighbouring points": cell_axis_ok(items[k], ctx.self, k) for k in range(d)}
+
+        reg.add(Contract(f"{SG}.cell_axes", self_cls="StructuredGrid", props=["C14.1"], params={}, pure=True, modifies=lambda ctx: [],
+                         requires=wf, ensures=ca_post, name=f"cell_axes{tag}", primary=False))
+
+        def da_post(ctx, r, d=d):
+            g = ctx.self
+            items = getattr(r, "items", None)
+            if items is None or len(items) != d:
+                return {"one data axis per data dimension": z3.BoolVal(False)}
+            out = {}
+            cells = LOC(ctx, g) == 0
+            i = z3.Int("dai")
+            for m in range(d):
+                a = items[m]
+                clause = []
+                for p_ in range(d):
+                    # data dimension m shows physical axis p_ where p_ = d-1-m for reversed axes, else m
+                    sel = (rev(ctx, g) if p_ == d - 1 - m else z3.BoolVal(False)) if p_ != m else (Not(rev(ctx, g)) if d - 1 - m != m else z3.BoolVal(True))
+                    if d - 1 - m == m and p_ == m:
+                        sel = z3.BoolVal(True)
+                    n = NPTS(g.e, z3.IntVal(p_))
+                    ln = If(cells, If(n > 1, n - 1, n), n)
+                    coord = lambda q, p_=p_, n=n: If(cells, If(n > 1, (AX(g.e, z3.IntVal(p_), q) + AX(g.e, z3.IntVal(p_), q + 1)) / 2, AX(g.e, z3.IntVal(p_), q)),
+                                                    AX(g.e, z3.IntVal(p_), q))
+                    src = If(inc(ctx, g, p_), i, ln - 1 - i)
+                    clause.append(Implies(sel, And(a.shape[0] == ln, z3.ForAll([i], Implies(And(0 <= i, i < ln), a.at((i,)) == coord(src))))))
+                out[f"data dimension {m}: coordinates of the right physical axis, in data direction"] = And(z3.BoolVal(isinstance(a, SArr) and a.rank == 1), *clause)
+            return out
+
+        reg.add(Contract(f"{SG}.data_axes", self_cls="StructuredGrid", props=["C14.1"], params={}, pure=True, modifies=lambda ctx: [],
+                         requires=wf, ensures=da_post, name=f"data_axes{tag}", primary=False,
+                         inline_calls=[f"{SG}.cell_axes"]))
